@@ -285,24 +285,51 @@ def run_daemon(desc):
         )
         v4 = (ci + desc['part']) % 2 == 0  # the legacy syntax (exabgp.api.version 4) and the default one
         script = '#sleep 1.0\n' + ''.join((f'announce {t}\n' if v4 else f'peer * announce {t}\n') for t, _ in api)
-        d = daemon.Daemon(text, files={'script': script}, env={'exabgp_api_version': '4'} if v4 else None)
+        # a second neighbor with its own local address takes the same API commands: 'next-hop self' is per neighbor
+        two = ci % 2 == 0
+        if two:
+            text += exa.neighbor_text(
+                peer='127.0.0.3',
+                local='127.0.0.9',
+                las=k['las'],
+                pas=pas,
+                families=FAMS,
+                asn4=True,
+                addpath=k['addpath'],
+                addpath_families=FAMS if k['addpath'] else None,
+                extmsg=k['extmsg'],
+                nexthop=ENH if k.get('enh') else (),
+                extra='    adj-rib-out true;\n    api { processes [ player ]; }',
+            )
+            script = '#wait both\n' + script
+        d = daemon.Daemon(text, files={'script': script}, env={'exabgp_api_version': '4'} if v4 else None, more_addrs=('127.0.0.3',) if two else ())
         wit0 = {'session': sname(k), 'config': text, 'script': script}
         try:
             d.start()
             peer = d.accept()
             peer.establish(pas, peer_body=peer_body)
             ref = rw.negotiate(rw.dec_open(peer.open_body), rw.dec_open(peer_body))
+            peer2 = None
+            msgs2 = []
+            if two:
+                peer2 = d.accept(addr='127.0.0.3')
+                peer2.establish(pas, peer_body=peer_body)
+                d.release('both')
             d.wait_lines('replies', lambda ls: any(x.startswith('["end"') for x in ls), timeout=60)
             msgs = peer.drain(quiet=1.0, limit=30)
+            if two:
+                msgs2 = peer2.drain(quiet=1.0, limit=30)
             replies = [json.loads(x) for x in d.lines('replies')]
         except daemon.Inconclusive as e:
             daemon.skipped(res, str(e))
             continue
         finally:
-            try:
-                peer.close()
-            except Exception:  # noqa
-                pass
+            for p_ in (locals().get('peer'), locals().get('peer2')):
+                try:
+                    if p_ is not None:
+                        p_.close()
+                except Exception:  # noqa
+                    pass
             d.stop()
         refused = [replies[i - 1][1] for i, x in enumerate(replies) if x[0] == 'got' and ('error' in x[1]) and i and replies[i - 1][0] == 'sent']
         if refused or any(x[0] == 'timeout' for x in replies):
@@ -337,6 +364,21 @@ def run_daemon(desc):
                 judge_route(res, k, ref, intent, gt.expected_wire(intent, s), decs, surface, {'session': sname(k), 'surface': surface, 'route': t, 'level': 'daemon'})
                 if sum(v['count'] for v in res.violations) == before:
                     res.ok('surface:' + surface)
+        if two:
+            s2 = dict(s, local_addr='127.0.0.9')
+            decs2 = []
+            for t_, body in msgs2:
+                if t_ != 2:
+                    continue
+                try:
+                    decs2.append(rw.dec_update(body, ws))
+                except rw.RefError as e:
+                    decs2.append({'error': f'reference cannot decode: {e}', 'raw': body.hex()[:400]})
+            for t, intent in api:
+                before = sum(v['count'] for v in res.violations)
+                judge_route(res, k, ref, intent, gt.expected_wire(intent, s2), decs2, 'daemon-api-second-neighbor', {'session': sname(k), 'surface': 'daemon-api-second-neighbor', 'route': t, 'level': 'daemon', 'local_address': '127.0.0.9'})
+                if sum(v['count'] for v in res.violations) == before:
+                    res.ok('surface:daemon-api-second-neighbor')
                     res.count('daemon-api-syntax:' + ('v4' if v4 else 'v6'))
     return res
 
@@ -489,7 +531,7 @@ def run_shard(desc):
 
 
 REQUIRED_CLASSES = {
-    'quick': ['surface:config', 'surface:api', 'surface:daemon-config', 'surface:daemon-api', 'surface:api-shared-route', 'surface:reconnect-other-capabilities', 'nexthop-self', 'default:origin:ibgp', 'default:origin:ebgp', 'default:as_path:ibgp', 'default:as_path:ebgp', 'default:local_pref:ibgp', 'default:local_pref:ebgp']
+    'quick': ['surface:config', 'surface:api', 'surface:daemon-config', 'surface:daemon-api', 'surface:daemon-api-second-neighbor', 'surface:api-shared-route', 'surface:reconnect-other-capabilities', 'nexthop-self', 'default:origin:ibgp', 'default:origin:ebgp', 'default:as_path:ibgp', 'default:as_path:ebgp', 'default:local_pref:ibgp', 'default:local_pref:ebgp']
     + ['kw:' + n for n in ('origin', 'as_path', 'med', 'local_pref', 'atomic', 'aggregator', 'communities', 'ext_communities', 'large_communities', 'originator', 'cluster_list', 'unknown')],
 }
 REQUIRED_CLASSES['thorough'] = REQUIRED_CLASSES['quick']
